@@ -1,7 +1,17 @@
 (* Property C03 - variable scoping follows the configured context behaviour.
-   Statements about the scoping rules of the reference semantics Core/Sem.v (what the implementation is compared
-   with on every run, under name collisions), plus the push/pop discipline of the fill-rendering mechanism. *)
-From DJC Require Import Lib.Base Core.Syntax Core.Sem Core.ScopeProofs.
+   (1) scope equations of the reference semantics Core/Sem.v (what the implementation is compared with on every run,
+       under name collisions);
+   (2) two-run non-interference of that semantics for WHOLE programs, in both directions, by induction over the
+       instantiation depth (Core/ScopeNI.v);
+   (3) the push/pop discipline of the Context layer stack as a mechanism model (Core/CtxStack.v): every frame of
+       ComponentNode.render / _render_impl / SlotNode.render / render_func restores the layer list it found, for all
+       layer lists and all nestings, and where the fill's captured variables sit meanwhile. *)
+From DJC Require Import Lib.Base Core.Syntax Core.Sem Core.ScopeProofs Core.ScopeNI Core.CtxStack.
+From Coq Require Import String.
+Local Open Scope string_scope.
+Local Open Scope list_scope.
+
+(* ===================== (1) scope equations ===================== *)
 
 (* isolated mode / `only`: the component template sees exactly what get_context_data returned *)
 Theorem isolated_template_sees_only_data : forall (md : mode) st c fills data x,
@@ -16,8 +26,8 @@ Theorem django_template_sees_data_over_outer : forall st c fills data x,
 Proof. exact django_sees_data_over_outer_lemma. Qed.
 Print Assumptions django_template_sees_data_over_outer.
 
-(* 2-run non-interference: whatever else differs between two caller states, an isolated component renders the
-   same as long as the passed keyword values, the fills of its body and the providers agree *)
+(* one tag: whatever else differs between two caller states, an isolated component renders the same as long as the
+   passed keyword values, the fills of its body and the providers agree *)
 Theorem isolated_noninterference : forall md lib f st st' c kw only body,
   is_isolated md only = true ->
   eval_kwargs kw st = eval_kwargs kw st' ->
@@ -47,15 +57,166 @@ Theorem only_flag_is_isolated : forall md, is_isolated md true = true.
 Proof. intros md. reflexivity. Qed.
 Print Assumptions only_flag_is_isolated.
 
-(* mechanism: the insert(i)/pop(i) pair around a fill body restores the caller's layer list, for every list and
-   every valid non-negative index ... *)
-Theorem insert_pop_balanced : forall (A : Type) i (x : A) l, i <= length l -> py_pop i (py_insert i x l) = l.
+(* ===================== (2) two-run non-interference, whole programs ===================== *)
+
+(* General form. Two runs of the same page: context behaviours md / md', libraries lib / lib', page contexts ctx / ctx'.
+   If every component tag (of the page and of every component template) is rendered isolated in both runs, the
+   libraries have the same templates and their get_context_data results agree on the names each component's OWN
+   template mentions, and the page contexts agree on the names the PAGE template mentions, then both runs give the
+   same result, for every fuel (= instantiation depth explored). *)
+Theorem program_noninterference : forall md md' lib lib' page ctx ctx' fuel,
+  rlib (both_isolated md md') lib lib' ->
+  iso_tpls (both_isolated md md') page = true ->
+  (forall x, In x (tpls_names page) -> slookup x ctx = slookup x ctx') ->
+  render_prog fuel (mkprog lib page ctx md) = render_prog fuel (mkprog lib' page ctx' md').
+Proof. exact program_noninterference_lemma. Qed.
+Print Assumptions program_noninterference.
+
+(* Isolated mode, both directions at once, no side conditions on the program:
+   outer -> inner: the page contexts may differ in every variable the page template does not mention (variables that
+                   only component templates read were never passed to them);
+   inner -> outer: every component may have a further data variable (zn c) with different values in the two runs that
+                   its own template does not mention - the caller's fill content may mention it, and still cannot
+                   see it (inner data reaches fill content only through slot data). *)
+Theorem isolated_noninterference_both_directions : forall lib page ctx ctx' zn sv sv' fuel,
+  (forall c cd, slookup c lib = Some cd -> ~ In (zn c) (tpls_names (c_tpl cd))) ->
+  (forall x, In x (tpls_names page) -> slookup x ctx = slookup x ctx') ->
+  render_prog fuel (mkprog (lib_with_secrets zn sv lib) page ctx Isolated) =
+  render_prog fuel (mkprog (lib_with_secrets zn sv' lib) page ctx' Isolated).
+Proof. exact isolated_noninterference_both_lemma. Qed.
+Print Assumptions isolated_noninterference_both_directions.
+
+Theorem isolated_noninterference_outer : forall lib page ctx ctx' fuel,
+  (forall x, In x (tpls_names page) -> slookup x ctx = slookup x ctx') ->
+  render_prog fuel (mkprog lib page ctx Isolated) = render_prog fuel (mkprog lib page ctx' Isolated).
+Proof. exact isolated_noninterference_outer_lemma. Qed.
+Print Assumptions isolated_noninterference_outer.
+
+(* `only` on every tag: the configured context behaviour is irrelevant ... *)
+Theorem only_everywhere_mode_irrelevant : forall lib page ctx fuel,
+  all_only page = true ->
+  (forall c cd, slookup c lib = Some cd -> all_only (c_tpl cd) = true) ->
+  render_prog fuel (mkprog lib page ctx Django) = render_prog fuel (mkprog lib page ctx Isolated).
+Proof. exact only_everywhere_mode_irrelevant_lemma. Qed.
+Print Assumptions only_everywhere_mode_irrelevant.
+
+(* ... and non-interference holds in both directions under either behaviour *)
+Theorem only_everywhere_noninterference : forall md lib page ctx ctx' zn sv sv' fuel,
+  all_only page = true ->
+  (forall c cd, slookup c lib = Some cd -> all_only (c_tpl cd) = true /\ ~ In (zn c) (tpls_names (c_tpl cd))) ->
+  (forall x, In x (tpls_names page) -> slookup x ctx = slookup x ctx') ->
+  render_prog fuel (mkprog (lib_with_secrets zn sv lib) page ctx md) =
+  render_prog fuel (mkprog (lib_with_secrets zn sv' lib) page ctx' md).
+Proof. exact only_everywhere_noninterference_lemma. Qed.
+Print Assumptions only_everywhere_noninterference.
+
+(* non-vacuity: a program in which a component template reads an unpassed page variable ("u") and the caller's fill
+   reads the component's extra data variable ("z"); the two runs differ in both, the premises hold, and the common
+   result is an actual rendering in which both reads are empty *)
+Definition ex_lib : list (str * cdef) :=
+  [(s2n "c", {| c_tpl := [TText (s2n "["); TOut (EVar (s2n "u")); TSlot (s2n "s") false false [] []; TText (s2n "]")];
+                c_data := [(s2n "d", DKw (s2n "a"))] |})].
+Definition ex_page : list tpl :=
+  [TComp (s2n "c") [(s2n "a", EVar (s2n "p"))] false
+     [TFill (EStr (s2n "s")) None None [TOut (EVar (s2n "z")); TOut (EVar (s2n "p"))]]].
+Definition ex_ctx (u : str) : env := [(s2n "p", VStr (s2n "P")); (s2n "u", VStr u)].
+
+Example noninterference_premises_satisfiable :
+  (forall c cd, slookup c ex_lib = Some cd -> ~ In ((fun _ => s2n "z") c) (tpls_names (c_tpl cd))) /\
+  (forall x, In x (tpls_names ex_page) -> slookup x (ex_ctx (s2n "U1")) = slookup x (ex_ctx (s2n "U2"))) /\
+  ex_ctx (s2n "U1") <> ex_ctx (s2n "U2") /\
+  lib_with_secrets (fun _ => s2n "z") (fun _ => s2n "S1") ex_lib <> lib_with_secrets (fun _ => s2n "z") (fun _ => s2n "S2") ex_lib /\
+  render_prog 5 (mkprog (lib_with_secrets (fun _ => s2n "z") (fun _ => s2n "S1") ex_lib) ex_page (ex_ctx (s2n "U1")) Isolated)
+    = Ok (s2n "[P]").
+Proof.
+  split; [|split; [|split; [|split]]].
+  - intros c cd H. unfold ex_lib in H. cbn [slookup] in H. destruct (str_eqb c (s2n "c")); [|discriminate].
+    inversion H; subst. vm_compute. intuition discriminate.
+  - intros x Hx. vm_compute in Hx. intuition (subst; reflexivity).
+  - discriminate.
+  - discriminate.
+  - vm_compute. reflexivity.
+Qed.
+
+Definition ex_page_only : list tpl :=
+  [TComp (s2n "c") [(s2n "a", EVar (s2n "p"))] true
+     [TFill (EStr (s2n "s")) None None [TOut (EVar (s2n "z")); TOut (EVar (s2n "p"))]]].
+Example only_everywhere_premises_satisfiable :
+  all_only ex_page_only = true /\ (forall c cd, slookup c ex_lib = Some cd -> all_only (c_tpl cd) = true) /\
+  render_prog 5 (mkprog ex_lib ex_page_only (ex_ctx (s2n "U1")) Django) = Ok (s2n "[P]").
+Proof.
+  split; [reflexivity|]. split; [|vm_compute; reflexivity].
+  intros c cd H. unfold ex_lib in H. cbn [slookup] in H. destruct (str_eqb c (s2n "c")); [|discriminate].
+  inversion H; subst. reflexivity.
+Qed.
+
+(* ===================== (3) the layer stack (mechanism) ===================== *)
+
+(* caller_context_unchanged, mechanism level: whatever is rendered - scopes, component tags, filled slots, nested in
+   any way - and whatever the layer list of the Context it is rendered on, the list is afterwards the list before
+   (and no list.pop raises). The error path belongs to C06; the tie to the code is the Context fingerprint oracle of
+   the correspondence check. *)
+Theorem caller_context_unchanged_mechanism : forall t c, exec t c = Some c.
+Proof. exact exec_balanced_lemma. Qed.
+Print Assumptions caller_context_unchanged_mechanism.
+
+Theorem caller_context_unchanged_mechanism_list : forall ts c, exec_list ts c = Some c.
+Proof. exact exec_list_balanced_lemma. Qed.
+Print Assumptions caller_context_unchanged_mechanism_list.
+
+(* the heart of it: render_func's insert(i)/pop(i) with i = (index of the last component layer, else 0) - 1, followed by
+   the pop of SlotNode.render's with-block, restores every layer list - also for i = -1, where list.pop(-1) removes the
+   alias layer instead of the inserted one and the with-block then removes the inserted one *)
+Theorem fill_frame_restores_any_stack : forall (c : list (list (N * N))) extra al fe,
+  match py_popZ (fill_index (set_top al (push extra c))) (py_insertZ (fill_index (set_top al (push extra c))) fe (set_top al (push extra c))) with
+  | Some c3 => pop c3 = c
+  | None => False
+  end.
+Proof. exact fill_frame_restores. Qed.
+Print Assumptions fill_frame_restores_any_stack.
+
+(* Python list semantics used above, for every list *)
+Theorem insert_pop_balanced : forall (A : Type) i (x : A) (l : list A), i <= List.length l -> py_pop i (py_insert i x l) = l.
 Proof. exact @insert_pop_balanced_lemma. Qed.
 Print Assumptions insert_pop_balanced.
 
-(* ... and for index -1 (no component layer): insert(-1)/pop(-1) are not inverse, but together with the pop of the
-   enclosing `with ctx.update(...)` the list is restored *)
 Theorem insert_minus1_pop_balanced : forall (A : Type) (x top : A) l,
   pop_m1 (pop_m1 (insert_m1 x (l ++ [top]))) = l.
 Proof. exact @insert_m1_pop_balanced_lemma. Qed.
 Print Assumptions insert_minus1_pop_balanced.
+
+(* where the variables captured for a fill (with/for between tag and fill) sit while the fill body runs:
+   no component layer in the used Context: directly below the alias layer (lexical) *)
+Theorem fill_layers_no_component_layer : forall (c : list (list (N * N))) extra al fe,
+  get_last_index (has_key COMPONENT_KEY) (c ++ [al ++ extra]) = None ->
+  fill_stack c extra al fe = c ++ [fe; al ++ extra].
+Proof. exact fill_layers_no_component_layer_lemma. Qed.
+Print Assumptions fill_layers_no_component_layer.
+
+(* last component layer at index k+1: directly below the layer at index k (that component's get_context_data layer) *)
+Theorem fill_layers_below_data_layer : forall (c : list (list (N * N))) extra al fe k,
+  get_last_index (has_key COMPONENT_KEY) (c ++ [al ++ extra]) = Some (S k) ->
+  fill_stack c extra al fe = firstn k (c ++ [al ++ extra]) ++ fe :: skipn k (c ++ [al ++ extra]).
+Proof. exact fill_layers_below_data_layer_lemma. Qed.
+Print Assumptions fill_layers_below_data_layer.
+
+(* the layer pushed for the fill carries the component key itself (django mode, tag not at the top of the page): the
+   variables land below the former top layer only - above the inner component's data layer. This is the mechanism
+   behind the recorded finding c03-django-fill-variables-inserted-above-inner-component-data. *)
+Theorem fill_layers_key_in_pushed_layer : forall (c : list (list (N * N))) top extra al fe,
+  has_key COMPONENT_KEY (al ++ extra) = true ->
+  fill_stack (c ++ [top]) extra al fe = c ++ [fe; top; al ++ extra].
+Proof. exact fill_layers_key_in_pushed_layer_lemma. Qed.
+Print Assumptions fill_layers_key_in_pushed_layer.
+
+Example fill_layers_premises_satisfiable :
+  get_last_index (has_key COMPONENT_KEY) ([[(9, 0)]] ++ [[] ++ [(7, 1)]])%N = None /\
+  get_last_index (has_key COMPONENT_KEY) ([[(9, 0)]; [(5, 50)]; [(COMPONENT_KEY, 2)]] ++ [[] ++ [(7, 1)]])%N = Some 2 /\
+  has_key COMPONENT_KEY ([] ++ [(COMPONENT_KEY, 1%N)]) = true.
+Proof. vm_compute. repeat split. Qed.
+
+(* witness of the refuted order (django mode, nested tag): the captured variable 5 := 77 shadows the inner data 5 := 50 *)
+Example fill_variables_above_inner_data_refuted :
+  fill_stack w_inner [(COMPONENT_KEY, 1%N)] [] [(5%N, 77%N)] =
+  w_outer ++ [[(5%N, 50%N)]; [(5%N, 77%N)]; [(COMPONENT_KEY, 2%N)]; [(COMPONENT_KEY, 1%N)]].
+Proof. exact fill_variables_above_inner_data_witness. Qed.
